@@ -33,4 +33,4 @@ INVARIANT ZeroAfterForgetAll
 PROPERTY ReferencedObjectsImmutable
 PROPERTY ReadOnlyWritesNothing
 CHECK_DEADLOCK FALSE
-CONSTRAINT Depth7
+CONSTRAINT Depth6
